@@ -339,3 +339,47 @@ func valueSources(info *types.Info, ld *core.LocalDefs, e ast.Expr, depth int) [
 	}
 	return out
 }
+
+// fieldStore is one place where a struct field is given a value: an assignment
+// `x.F = v` or a member `F: v` of a composite literal.
+type fieldStore struct {
+	field *types.Var
+	value ast.Expr
+	pos   token.Pos
+}
+
+func fieldStores(info *types.Info, body ast.Node) []fieldStore {
+	var out []fieldStore
+	ast.Inspect(body, func(n ast.Node) bool {
+		switch x := n.(type) {
+		case *ast.AssignStmt:
+			if len(x.Lhs) == len(x.Rhs) {
+				for i, l := range x.Lhs {
+					if f := core.FieldOf(info, l); f != nil {
+						out = append(out, fieldStore{f, x.Rhs[i], x.Pos()})
+					}
+				}
+			}
+		case *ast.CompositeLit:
+			_, st := core.StructOf(info.TypeOf(x))
+			if st == nil {
+				return true
+			}
+			for _, el := range x.Elts {
+				kv, ok := el.(*ast.KeyValueExpr)
+				if !ok {
+					continue
+				}
+				if id, ok := kv.Key.(*ast.Ident); ok {
+					for i := 0; i < st.NumFields(); i++ {
+						if st.Field(i).Name() == id.Name {
+							out = append(out, fieldStore{st.Field(i), kv.Value, kv.Pos()})
+						}
+					}
+				}
+			}
+		}
+		return true
+	})
+	return out
+}
